@@ -381,3 +381,172 @@ Proof.
   - intros st o H. now apply lru_step_refines.
   - apply lru_inv_empty.
 Qed.
+
+(* ================================================================== the recency list satisfies the property text *)
+Lemma lookup_app : forall k (a b : list kv),
+  lookup k (a ++ b) = match lookup k a with Some x => Some x | None => lookup k b end.
+Proof.
+  intros k a b. unfold lookup. induction a as [|[x vx] t IH]; cbn; auto.
+  destruct (Nat.eqb x k); cbn; auto.
+Qed.
+
+Lemma lookup_without_same : forall k (l : list kv), lookup k (without k l) = None.
+Proof.
+  intros k l. unfold lookup, without. induction l as [|[x vx] t IH]; cbn; auto.
+  destruct (Nat.eqb x k) eqn:E; cbn; auto. now rewrite E.
+Qed.
+
+Lemma lookup_without_other : forall k k' (l : list kv), k <> k' -> lookup k' (without k l) = lookup k' l.
+Proof.
+  intros k k' l N. unfold lookup, without. induction l as [|[x vx] t IH]; cbn; auto.
+  destruct (Nat.eqb x k) eqn:E; cbn.
+  - apply Nat.eqb_eq in E. subst x. destruct (Nat.eqb k k') eqn:E2; auto.
+    apply Nat.eqb_eq in E2. congruence.
+  - destruct (Nat.eqb x k'); auto.
+Qed.
+
+Lemma lookup_In : forall k (l : list kv) v, lookup k l = Some v -> In k (map fst l).
+Proof.
+  intros k l v. unfold lookup. induction l as [|[x vx] t IH]; cbn; [discriminate|].
+  destruct (Nat.eqb x k) eqn:E; cbn.
+  - apply Nat.eqb_eq in E. auto.
+  - auto.
+Qed.
+
+Lemma lookup_notin : forall k (l : list kv), ~ In k (map fst l) -> lookup k l = None.
+Proof.
+  intros k l N. destruct (lookup k l) eqn:E; auto. apply lookup_In in E. tauto.
+Qed.
+
+Lemma keys_without : forall k (l : list kv),
+  map fst (without k l) = filter (fun x => negb (x =? k)) (map fst l).
+Proof.
+  intros k l. unfold without. induction l as [|[x vx] t IH]; cbn; auto.
+  destruct (Nat.eqb x k); cbn; congruence.
+Qed.
+
+Lemma filter_len_le : forall A (f : A -> bool) (l : list A), length (filter f l) <= length l.
+Proof. intros A f l. induction l as [|x t IH]; cbn; auto. destruct (f x); cbn; lia. Qed.
+
+Lemma without_shorter : forall k (l : list kv) v, lookup k l = Some v -> S (length (without k l)) <= length l.
+Proof.
+  intros k l v. unfold lookup, without. induction l as [|[x vx] t IH]; cbn; [discriminate|].
+  destruct (Nat.eqb x k) eqn:E; cbn.
+  - intros _. apply le_n_S. apply filter_len_le.
+  - intros H. apply IH in H. apply le_n_S. exact H.
+Qed.
+
+Lemma NoDup_keys_touch : forall k v (l : list kv), NoDup (map fst l) -> NoDup (map fst (without k l ++ [(k, v)])).
+Proof.
+  intros k v l ND. rewrite map_app, keys_without. cbn. apply NoDup_snoc.
+  - now apply NoDup_filter.
+  - rewrite filter_In, Nat.eqb_refl. cbn. intros [_ H]. discriminate.
+Qed.
+
+Lemma lookup_tl : forall k (l : list kv) v, NoDup (map fst l) -> lookup k (tl l) = Some v -> lookup k l = Some v.
+Proof.
+  intros k [|[x vx] t] v ND H; cbn in *; auto. unfold lookup in *. cbn.
+  destruct (Nat.eqb x k) eqn:E; auto. apply Nat.eqb_eq in E. subst x.
+  inversion ND as [|? ? NI _]; subst. exfalso. apply NI. eapply lookup_In. exact H.
+Qed.
+
+Definition spec_good {D} (mx : nat) (l : list kv) (hist : list (op D)) : Prop :=
+  length l <= mx /\ NoDup (map fst l) /\ forall k v, lookup k l = Some v -> latest k hist = Some v.
+
+Lemma lru_spec_step_good : forall D mx l hist (o : op D), 1 <= mx -> spec_good mx l hist ->
+  spec_good mx (fst (lru_spec_step mx l o)) (o :: hist).
+Proof.
+  intros D mx l hist o Hmx (LE & ND & LAT). destruct o as [k v dd|k|k| |]; cbn.
+  - (* put *)
+    destruct (lookup k l) as [v0|] eqn:Ek.
+    + repeat split.
+      * rewrite app_length. cbn. pose proof (without_shorter _ _ _ Ek). lia.
+      * now apply NoDup_keys_touch.
+      * intros k' v'. cbn [latest]. rewrite lookup_app. destruct (Nat.eq_dec k k') as [<-|N].
+        -- rewrite lookup_without_same. unfold lookup; cbn. rewrite Nat.eqb_refl. cbn. auto.
+        -- rewrite lookup_without_other by auto. apply Nat.eqb_neq in N. rewrite N.
+           destruct (lookup k' l) eqn:E'.
+           ++ intros H. inversion H; subst. auto.
+           ++ unfold lookup; cbn. rewrite N. cbn. discriminate.
+    + assert (NK : ~ In k (map fst l)).
+      { intros H. apply in_map_iff in H. destruct H as [[x vx] [Hx Hin]]. cbn in Hx. subst x.
+        clear - Ek Hin. unfold lookup in Ek. induction l as [|[y vy] t IH]; cbn in *; auto.
+        destruct (Nat.eqb y k) eqn:E; cbn in *; [discriminate|].
+        destruct Hin as [H|H]; [inversion H; subst; rewrite Nat.eqb_refl in E; discriminate | auto]. }
+      set (l1 := if mx <=? length l then tl l else l).
+      assert (L1 : length l1 + 1 <= mx).
+      { unfold l1. destruct (mx <=? length l) eqn:E.
+        - apply Nat.leb_le in E. destruct l; cbn in *; lia.
+        - apply Nat.leb_gt in E. lia. }
+      assert (SUB : forall x, In x (map fst l1) -> In x (map fst l)).
+      { unfold l1. destruct (mx <=? length l); auto. destruct l; cbn; auto. }
+      assert (ND1 : NoDup (map fst l1)).
+      { unfold l1. destruct (mx <=? length l); auto. destruct l; cbn in *; auto. now inversion ND. }
+      assert (LK1 : forall k' v', lookup k' l1 = Some v' -> lookup k' l = Some v').
+      { unfold l1. destruct (mx <=? length l); auto. intros. now apply lookup_tl. }
+      repeat split.
+      * rewrite app_length. cbn. lia.
+      * rewrite map_app. cbn. apply NoDup_snoc; auto.
+      * intros k' v'. cbn [latest]. rewrite lookup_app. destruct (Nat.eq_dec k k') as [<-|N].
+        -- rewrite (lookup_notin k l1) by auto. unfold lookup; cbn. rewrite Nat.eqb_refl. cbn. auto.
+        -- apply Nat.eqb_neq in N. rewrite N. destruct (lookup k' l1) eqn:E'.
+           ++ intros H. inversion H; subst. auto.
+           ++ unfold lookup; cbn. rewrite N. cbn. discriminate.
+  - (* get *)
+    destruct (lookup k l) as [v0|] eqn:Ek; cbn.
+    + repeat split.
+      * rewrite app_length. cbn. pose proof (without_shorter _ _ _ Ek). lia.
+      * now apply NoDup_keys_touch.
+      * intros k' v'. cbn [latest]. rewrite lookup_app. destruct (Nat.eq_dec k k') as [<-|N].
+        -- rewrite lookup_without_same. unfold lookup; cbn. rewrite Nat.eqb_refl. cbn.
+           intros H. inversion H; subst. auto.
+        -- rewrite lookup_without_other by auto. destruct (lookup k' l) eqn:E'.
+           ++ intros H. inversion H; subst. auto.
+           ++ unfold lookup; cbn. apply Nat.eqb_neq in N. rewrite N. cbn. discriminate.
+    + repeat split; auto.
+  - repeat split; auto.
+  - repeat split; auto.
+  - repeat split; cbn; try lia; try constructor. intros k v. unfold lookup; cbn. discriminate.
+Qed.
+
+(* In every reachable state of the recency list: at most max_size entries, and a resident key carries
+   the value most recently put for it (so `in` is true exactly when `get` returns that value: both read
+   the same lookup). *)
+Theorem lru_spec_sound : forall D mx (ops : list (op D)), 1 <= mx ->
+  spec_good mx (final (lru_spec_step mx) [] ops) (rev ops).
+Proof.
+  intros D mx ops Hmx. induction ops as [|o ops IH] using rev_ind.
+  - cbn. repeat split; cbn; try lia; try constructor. intros k v. unfold lookup; cbn. discriminate.
+  - rewrite final_snoc, rev_app_distr. cbn. now apply lru_spec_step_good.
+Qed.
+
+Lemma final_abs_gen : forall S T O (step : S -> O -> S * out) (spec : T -> O -> T * out)
+                             (I : S -> Prop) (abs : S -> T),
+  (forall st o, I st -> I (fst (step st o))) ->
+  (forall st o, I st -> spec (abs st) o = (abs (fst (step st o)), snd (step st o))) ->
+  forall ops st, I st -> I (final step st ops) /\ abs (final step st ops) = final spec (abs st) ops.
+Proof.
+  intros S T O step spec I abs HI HS ops. induction ops as [|o t IH]; intros st Hst; cbn; auto.
+  specialize (IH (fst (step st o)) (HI st o Hst)). destruct IH as [I1 E1]. split; auto.
+  unfold final in *. cbn. rewrite E1. now rewrite (HS st o Hst).
+Qed.
+
+(* the same, stated on the code model: presence <-> latest value, size bound *)
+Theorem lru_presence_latest : forall D mx (ops : list (op D)) k, 1 <= mx ->
+  let st := final (lru_step mx) lru_empty ops in
+  length (l_dict st) <= mx
+  /\ (amem k (l_dict st) = true <-> exists v, aget k (l_dict st) = Some v)
+  /\ (forall v, aget k (l_dict st) = Some v -> latest k (rev ops) = Some v).
+Proof.
+  intros D mx ops k Hmx st.
+  destruct (final_abs_gen _ _ _ (lru_step mx) (lru_spec_step mx) (lru_inv mx) lru_abs
+              (fun st o H => proj1 (lru_step_ok D mx st o Hmx H))
+              (fun st o H => lru_step_refines D mx st o Hmx H) ops lru_empty (lru_inv_empty mx)) as [Hinv Habs].
+  fold st in Hinv, Habs. destruct (lru_spec_sound D mx ops Hmx) as (_ & _ & LAT).
+  repeat split.
+  - apply Hinv.
+  - apply amem_aget.
+  - intros [v Hv]. eapply aget_amem; eauto.
+  - intros v Hv. apply LAT. change (@nil kv) with (lru_abs lru_empty). rewrite <- Habs.
+    now rewrite (lru_abs_lookup mx st k Hinv).
+Qed.
